@@ -21,6 +21,7 @@ import (
 	"github.com/anishathalye/porcupine"
 	"github.com/dolthub/dolt/go/libraries/doltcore/doltdb"
 	"github.com/dolthub/dolt/go/libraries/doltcore/ref"
+	"github.com/dolthub/dolt/go/libraries/doltcore/schema"
 	"github.com/dolthub/dolt/go/store/chunks"
 	"github.com/dolthub/dolt/go/store/constants"
 	"github.com/dolthub/dolt/go/store/datas"
@@ -64,9 +65,19 @@ func (h C20) Generate(seed uint64, tier string) *core.Scenario {
 	}
 	b.NTasks = r.Range(2, 4)
 	b.Iters = r.Range(2, 5)
-	for _, k := range c20Kinds {
-		if r.Chance(2, 3) {
-			b.Mix = append(b.Mix, k)
+	if r.Chance(1, 2) {
+		// swarm: a small subset of kinds, so that the few enabled ones collide often
+		want := r.Range(2, 4)
+		perm := r.Perm(len(c20Kinds))
+		for _, i := range perm[:want] {
+			b.Mix = append(b.Mix, c20Kinds[i])
+		}
+		b.Iters = r.Range(3, 6)
+	} else {
+		for _, k := range c20Kinds {
+			if r.Chance(2, 3) {
+				b.Mix = append(b.Mix, k)
+			}
 		}
 	}
 	if h.Prop == "C21" {
@@ -127,7 +138,10 @@ func decState(s string) map[string]string {
 	return m
 }
 
-func refsModel(init map[string]string) porcupine.Model {
+// refsModel: dirty(wsAddr, headAddr) tells whether the working set value is dirty with respect to
+// the head commit (staged != working, or staged != the commit's root); it is a function of the two
+// immutable values, looked up in tables the harness filled when it created them.
+func refsModel(init map[string]string, dirty func(ws, head string) bool) porcupine.Model {
 	return porcupine.Model{
 		Init: func() interface{} { return encState(init) },
 		Step: func(state, input, output interface{}) (bool, interface{}) {
@@ -137,6 +151,11 @@ func refsModel(init map[string]string) porcupine.Model {
 				return encState(op.Snap) == state.(string), state
 			}
 			if !op.Ok {
+				if op.Kind == "delete" && op.Err == "dirty-workspace" {
+					// refused as dirty: at the linearization point there must be a dirty working set
+					ws, has := st[op.WS]
+					return has && dirty != nil && dirty(ws, st[op.DS]), state
+				}
 				return true, state // a refused conditional update changes nothing
 			}
 			switch op.Kind {
@@ -170,7 +189,11 @@ func refsModel(init map[string]string) porcupine.Model {
 				st[op.DS] = op.New
 			case "delete":
 				// Delete removes whatever head is there (its internal check only guards against the
-				// head changing between its own retries) and succeeds if the dataset is absent
+				// head changing between its own retries) and succeeds if the dataset is absent; with a
+				// working-set path it must refuse when that working set is dirty
+				if ws, has := st[op.WS]; has && op.WS != "" && dirty != nil && dirty(ws, st[op.DS]) {
+					return false, state
+				}
 				delete(st, op.DS)
 				if op.WS != "" {
 					delete(st, op.WS)
@@ -234,6 +257,10 @@ type refsWorld struct {
 	db      datas.Database
 	rootVal types.Value
 	rootRef types.Ref
+	// a second, different root value: working sets whose working/staged root differs from the
+	// head's root are "dirty" (Delete with a working-set path must refuse them)
+	rootVals [2]types.Value
+	rootRefs [2]types.Ref
 	vrw     *types.ValueStore
 	cs      chunks.ChunkStore
 }
@@ -285,11 +312,26 @@ func openRefsWorldMode(ctx context.Context, dir, store string, s *core.Sched, in
 		st.Close()
 		return nil, err
 	}
-	w.rootVal = rv.NomsValue()
-	w.rootRef, err = types.NewRef(w.rootVal, ddb.Format())
-	if err != nil {
+	// two fixed root values, independent of where main points when the store is (re)opened
+	for i, coll := range []schema.Collation{schema.Collation_Default, schema.Collation_utf8mb4_bin} {
+		rvi, err := rv.SetCollation(ctx, coll)
+		if err == nil {
+			rvi, _, err = ddb.WriteRootValue(ctx, rvi)
+		}
+		if err != nil {
+			st.Close()
+			return nil, fmt.Errorf("root value %d: %w", i, err)
+		}
+		w.rootVals[i] = rvi.NomsValue()
+		if w.rootRefs[i], err = types.NewRef(w.rootVals[i], ddb.Format()); err != nil {
+			st.Close()
+			return nil, err
+		}
+	}
+	w.rootVal, w.rootRef = w.rootVals[0], w.rootRefs[0]
+	if w.rootRefs[1].TargetHash() == w.rootRefs[0].TargetHash() {
 		st.Close()
-		return nil, err
+		return nil, fmt.Errorf("second root equals the first")
 	}
 	return w, nil
 }
@@ -346,6 +388,18 @@ func (h C20) Execute(t *testing.T, sc *core.Scenario) *core.Result {
 	if err != nil {
 		res.Panic = "init: " + err.Error()
 		return res
+	}
+	// a second branch with a clean working set, so that Delete(branch, working set) has a target
+	if mds, err := w0.db.GetDataset(ctx, "refs/heads/main"); err == nil {
+		if ma, ok := mds.MaybeHeadAddr(); ok {
+			if ds, err := w0.db.GetDataset(ctx, "refs/heads/b1"); err == nil {
+				if _, err := w0.db.SetHead(ctx, ds, ma, ""); err == nil {
+					if wds, err := w0.db.GetDataset(ctx, "workingSets/heads/b1"); err == nil {
+						w0.db.UpdateWorkingSet(ctx, wds, datas.WorkingSetSpec{Meta: &datas.WorkingSetMeta{Name: "dsim", Email: "d@e", Description: "init b1", Timestamp: 1}, WorkingRoot: w0.rootRef, StagedRoot: w0.rootRef}, hash.Hash{})
+					}
+				}
+			}
+		}
 	}
 	init, err := w0.snapshot()
 	if err != nil {
@@ -406,6 +460,14 @@ func (h C20) Execute(t *testing.T, sc *core.Scenario) *core.Result {
 	if hm, ok := init["refs/heads/main"]; ok {
 		known = append(known, hm)
 	}
+	wsInfo := map[string][2]int{} // working-set address -> (staged root index, working root index)
+	cmRoot := map[string]int{}    // commit address -> root index (absent = 0)
+	isDirty := func(ws, head string) bool {
+		hmu.Lock()
+		defer hmu.Unlock()
+		wi := wsInfo[ws]
+		return wi[0] != wi[1] || wi[0] != cmRoot[head]
+	}
 	isAncestor := func(anc, desc string) bool {
 		hmu.Lock()
 		defer hmu.Unlock()
@@ -447,6 +509,7 @@ func (h C20) Execute(t *testing.T, sc *core.Scenario) *core.Result {
 		}
 	}
 	branches := []string{"refs/heads/main", "refs/heads/b1", "refs/heads/b2"}
+	hot := branches[int(b.Seed>>7)%len(branches)]
 	wsOf := func(b string) string { return "workingSets/heads/" + filepath.Base(b) }
 	var uniq atomic.Int64
 
@@ -469,9 +532,41 @@ func (h C20) Execute(t *testing.T, sc *core.Scenario) *core.Result {
 				m, _ := datas.NewCommitMeta("dsim", "dsim@example.com", fmt.Sprintf("task %d op %d", id, uniq.Add(1)))
 				return m
 			}
+			var lastWS [2]int
+			curHead := ""
 			wsSpec := func() datas.WorkingSetSpec {
 				u := uniq.Add(1)
-				return datas.WorkingSetSpec{Meta: &datas.WorkingSetMeta{Name: "dsim", Email: "d@e", Description: fmt.Sprintf("ws %d %d", id, u), Timestamp: uint64(u)}, WorkingRoot: w.rootRef, StagedRoot: w.rootRef}
+				lastWS = [2]int{0, 0}
+				switch r.Intn(4) {
+				case 0:
+					lastWS = [2]int{0, 1}
+				case 1:
+					lastWS = [2]int{1, 1}
+				case 2:
+					// clean with respect to the branch head just read
+					hmu.Lock()
+					lastWS = [2]int{cmRoot[curHead], cmRoot[curHead]}
+					hmu.Unlock()
+				}
+				return datas.WorkingSetSpec{Meta: &datas.WorkingSetMeta{Name: "dsim", Email: "d@e", Description: fmt.Sprintf("ws %d %d", id, u), Timestamp: uint64(u)}, WorkingRoot: w.rootRefs[lastWS[1]], StagedRoot: w.rootRefs[lastWS[0]]}
+			}
+			noteWS := func(addr string) {
+				hmu.Lock()
+				wsInfo[addr] = lastWS
+				hmu.Unlock()
+			}
+			var lastRoot int
+			pickRoot := func() types.Value {
+				lastRoot = 0
+				if r.Chance(1, 3) {
+					lastRoot = 1
+				}
+				return w.rootVals[lastRoot]
+			}
+			noteCommit := func(addr string) {
+				hmu.Lock()
+				cmRoot[addr] = lastRoot
+				hmu.Unlock()
 			}
 			getDS := func(id string) (datas.Dataset, string, bool) {
 				ds, err := w.db.GetDataset(ctx, id)
@@ -481,6 +576,9 @@ func (h C20) Execute(t *testing.T, sc *core.Scenario) *core.Result {
 				a, ok := ds.MaybeHeadAddr()
 				if !ok {
 					return ds, "", true
+				}
+				if strings.HasPrefix(id, "refs/heads/") {
+					curHead = a.String()
 				}
 				return ds, a.String(), true
 			}
@@ -495,6 +593,9 @@ func (h C20) Execute(t *testing.T, sc *core.Scenario) *core.Result {
 				}
 				kind := kinds[r.Intn(len(kinds))]
 				br := branches[r.Intn(len(branches))]
+				if r.Chance(1, 2) {
+					br = hot // one branch per run draws half of the operations, so that they collide
+				}
 				switch kind {
 				case "read":
 					call := tick()
@@ -515,12 +616,13 @@ func (h C20) Execute(t *testing.T, sc *core.Scenario) *core.Result {
 					if !ok || obs == "" {
 						continue
 					}
-					nds, err := w.db.Commit(ctx, ds, w.rootVal, datas.CommitOptions{Meta: meta()})
+					nds, err := w.db.Commit(ctx, ds, pickRoot(), datas.CommitOptions{Meta: meta()})
 					ret := tick()
 					op := refOp{Kind: "commit", DS: br, Obs: obs}
 					if err == nil {
 						a, _ := nds.MaybeHeadAddr()
 						op.Ok, op.New = true, a.String()
+						noteCommit(op.New)
 						addCommit(op.New, obs)
 					} else {
 						op.Err = errClass(err)
@@ -540,13 +642,15 @@ func (h C20) Execute(t *testing.T, sc *core.Scenario) *core.Result {
 					if obsWS != "" {
 						prev = hash.Parse(obsWS)
 					}
-					cds, nwds, err := w.db.CommitWithWorkingSet(ctx, ds, wds, w.rootVal, wsSpec(), prev, datas.CommitOptions{Meta: meta()})
+					cds, nwds, err := w.db.CommitWithWorkingSet(ctx, ds, wds, pickRoot(), wsSpec(), prev, datas.CommitOptions{Meta: meta()})
 					ret := tick()
 					op := refOp{Kind: "commitws", DS: br, WS: wsOf(br), Obs: obs, ObsWS: obsWS}
 					if err == nil {
 						a, _ := cds.MaybeHeadAddr()
 						wa, _ := nwds.MaybeHeadAddr()
 						op.Ok, op.New, op.NewWS = true, a.String(), wa.String()
+						noteCommit(op.New)
+						noteWS(op.NewWS)
 						addCommit(op.New, obs)
 					} else {
 						op.Err = errClass(err)
@@ -568,6 +672,7 @@ func (h C20) Execute(t *testing.T, sc *core.Scenario) *core.Result {
 					if err == nil {
 						wa, _ := nwds.MaybeHeadAddr()
 						op.Ok, op.NewWS = true, wa.String()
+						noteWS(op.NewWS)
 					} else {
 						op.Err = errClass(err)
 					}
@@ -580,7 +685,7 @@ func (h C20) Execute(t *testing.T, sc *core.Scenario) *core.Result {
 					if !ok || obs == "" {
 						continue
 					}
-					nc, err := w.db.BuildNewCommit(ctx, ds, w.rootVal, datas.CommitOptions{Meta: meta(), Parents: []hash.Hash{hash.Parse(base)}, Force: true})
+					nc, err := w.db.BuildNewCommit(ctx, ds, pickRoot(), datas.CommitOptions{Meta: meta(), Parents: []hash.Hash{hash.Parse(base)}, Force: true})
 					if err != nil {
 						res.Probe("build_commit_error")
 						continue
@@ -592,6 +697,7 @@ func (h C20) Execute(t *testing.T, sc *core.Scenario) *core.Result {
 					na := cref.TargetHash().String()
 					hmu.Lock()
 					parents[na] = []string{base}
+					cmRoot[na] = lastRoot
 					hmu.Unlock()
 					nds, err := w.db.FastForward(ctx, ds, cref.TargetHash(), "", false)
 					ret := tick()
@@ -628,11 +734,18 @@ func (h C20) Execute(t *testing.T, sc *core.Scenario) *core.Result {
 					record(id, op, call, ret)
 				case "newbranch":
 					target := pickKnown(r)
-					nb := "refs/heads/b2"
+					nb := branches[1+r.Intn(2)]
 					call := tick()
 					ds, obs, ok := getDS(nb)
 					if !ok || obs != "" {
-						continue
+						if nb == branches[1] {
+							nb = branches[2]
+						} else {
+							nb = branches[1]
+						}
+						if ds, obs, ok = getDS(nb); !ok || obs != "" {
+							continue
+						}
 					}
 					_, err := w.db.SetHead(ctx, ds, hash.Parse(target), "")
 					ret := tick()
@@ -664,7 +777,7 @@ func (h C20) Execute(t *testing.T, sc *core.Scenario) *core.Result {
 					record(id, op, call, ret)
 				case "delete":
 					if br == "refs/heads/main" {
-						continue
+						br = branches[1+r.Intn(2)]
 					}
 					call := tick()
 					ds, obs, ok := getDS(br)
@@ -710,7 +823,7 @@ func (h C20) Execute(t *testing.T, sc *core.Scenario) *core.Result {
 		}
 	}
 	if len(hist) <= 70 {
-		r := porcupine.CheckOperationsTimeout(refsModel(init), hist, 0)
+		r := porcupine.CheckOperationsTimeout(refsModel(init, isDirty), hist, 0)
 		switch r {
 		case porcupine.Illegal:
 			var lines []string
